@@ -389,8 +389,11 @@ def model(ctx, cases, outs):
     ch = ctx.run_model("entry_chrystal_many", hulls)
     sw = ctx.run_model("entry_sweep_many", hulls)
     fl = ctx.run_model("entry_fill_model", [[[l, h] for (l, _, h) in objs[k] if h] for k in ok])
-    for k, r, w, f in zip(ok, ch, sw, fl):
-        res[k] = {"mec": r, "sweep": w, "fill": f}
+    # brute force on the same vertex lists, next to the sweep: a disagreement refutes calipers = brute force
+    flat = [h for hs in hulls for h in hs if len(h) >= 1]
+    bf = iter(ctx.run_model("entry_feret_max", flat)) if flat else iter([])
+    for k, r, w, f, hs in zip(ok, ch, sw, fl, hulls):
+        res[k] = {"mec": r, "sweep": w, "fill": f, "bf_max": [next(bf) if len(h) >= 1 else 0 for h in hs]}
     return res
 
 
@@ -426,9 +429,15 @@ def compare(case, out, m):
         return "feret_diameter raised %s" % (fer,)
     if isinstance(m["sweep"], dict):
         return "sweep model failed: %s" % (m["sweep"],)
+    hs = [h for (_, _, h) in _objects(case, out)]
     for k, w in enumerate(m["sweep"]):
         if len(w) != 3:
             return "antipodal sweep model ran out of fuel on object %d" % k
+        be = _best_edge(hs[k], hs[k]) if len(hs[k]) >= 3 else None
+        bmin = be[0] if be else F(0)
+        if w[0] != m["bf_max"][k] or F(w[1], w[2]) != bmin:
+            return ("REFUTATION of calipers = brute force on hull %s: sweep model (max^2 %s, min^2 %s/%s), brute force "
+                    "(max^2 %s, min^2 %s)" % (hs[k], w[0], w[1], w[2], m["bf_max"][k], bmin))
         emax, emin = math.sqrt(w[0]), math.sqrt(F(w[1], w[2]))
         if not (_close(fer["max"][k], emax, TOL_FERET) and _close(fer["min"][k], emin, TOL_FERET)):
             return "feret_diameter object %d: implementation (min %r, max %r) vs exact sweep model (min %r, max %r)" % (
